@@ -207,6 +207,19 @@ func runC01(c *core.Ctx, o Options) {
 			}
 		}
 	}
+	// … nor does anything called in between (other than the three computations and the store of the checksum itself)
+	for _, in := range seq {
+		call, ok := in.(*ssa.Call)
+		if !ok || !before(cblCall, call) || !before(call, lastStore) || call == bwcCall || call == ccsCall || call == setCall || mutated != "" {
+			continue
+		}
+		// (a helper cut out of Prepare is on the path with its body: its instructions are looked at one by one)
+		if cal := an.StaticCallee(&call.Call); cal != nil && cal.Pkg != nil && strings.HasPrefix(cal.Pkg.Pkg.Path(), core.ModPath) && cal != bwc && cal != ccs && cal != cbl && an.IsKnown(cal) {
+			if m := firstMutation(c, cal, map[*ssa.Function]bool{}, 0); m != "" {
+				mutated = "(" + m + ")"
+			}
+		}
+	}
 	c.Check(mutated == "", "L2", "Message.Prepare", "the message is not modified between the length computation and the assembly", prep.Pos(), "no store to header/body/trailer/msgType", "field "+mutated+" is replaced between CalcBodyLength and the assembly")
 	// inner layouts
 	inner := layoutsOf(bwc)
@@ -300,7 +313,10 @@ func runC01(c *core.Ctx, o Options) {
 	checkChecksumFn(c, "S1", ccs)
 	checkLeafProducers(c, "S2")
 	checkIntCodec(c, "S4")
-	c.RuleMin = map[string]int{"L1": 6, "L2": 8, "L3": 2, "L4": 3, "S1": 2, "S2": 8, "S4": 2}
+	// L2: the length function and the assembly read the message; they (and what they call) never write it
+	checkReadOnly(c, "L2", cbl, bwc, ccs)
+	c.Explanation += " L2 also requires that CalcBodyLength, BytesWithoutChecksum and CalcCheckSum — with everything of the module they can call, interface calls resolved through the call graph — store nothing outside their own locals, and that nothing called between the length computation and the assembly does: the message that is assembled is the message that was measured."
+	c.RuleMin = map[string]int{"L1": 6, "L2": 11, "L3": 2, "L4": 3, "S1": 2, "S2": 8, "S4": 2}
 	c.MinObl = 30
 }
 
